@@ -217,7 +217,7 @@ func newStrRun(nprocs, nstreams int) *strRun {
 
 // settle waits until every processor is back, at the gate, or asleep in a Cond.Wait.
 func (run *strRun) settle() bool {
-	deadline := time.Now().Add(1500 * time.Millisecond)
+	deadline := time.Now().Add(6 * time.Second)
 	stable := 0
 	for {
 		run.mu.Lock()
@@ -618,7 +618,7 @@ func genStreams(w *bufio.Writer, rng *hx.Rng, tier string) {
 		nb = 24
 	}
 	for i := 0; i < nb; i++ {
-		fmt.Fprintf(w, "c04.burst %s %d %d\n", []string{"lowmem", "std"}[i%2], 200+100*(i%3), 100+50*(i%4))
+		fmt.Fprintf(w, "c04.burst %s %d %d\n", []string{"lowmem", "std"}[i%2], 300+100*(i%3), 400+100*(i%3))
 	}
 	for i := 0; i < n; i++ {
 		np := rng.Range(1, 3)
